@@ -60,6 +60,11 @@ CLAIMED = {
     note="Trusted: Coq kernel; stdlib real axioms; erf is a leaf (scipy.special.erf); q_calc extension (linspace/logspace, ceil, log) is checked by the oracle only; slits with q_width>0 are a recorded known finding (cannot be repaired without moving a pinned test value).",
     technique="Coq proof (normalisation, telescoping sums over R) + vm_compute correspondence + property oracle",
     design="DESIGN.md §3 C03"),
+ "C04": dict(
+    text="PARTIAL. Coq theorems: the first-order error bound of a midpoint scheme in discrete form (|sum m_j f(x_j) - sum m_j f(y_j)| <= L h sum m_j for L-Lipschitz f, any cells, masses and nodes), the identification of the pinhole weight with the mass the Gaussian of standard deviation sigma gives to the bin (the sqrt(2) in the erf argument), and - with Coquelicot's integral - the 2-D ring weight as the mass of rho exp(-rho^2/2) on the ring. Not carried by a theorem: the mean-value step linking the discrete bound to the integral, Lipschitz constants of the concrete intensities, the 2-D angular discretisation. These are measured: apply(f(q_calc)) against scipy quad/dblquad of the documented integrals (truncated renormalised Gaussian on [-2.5,+3] sigma; (1/L) int_0^L I(sqrt(q^2+u^2)) du; (1/2W) int I(|q+v|) dv; the double integral up to the 61-point rule; the elliptical Gaussian aligned with q truncated at 3 sigma) at three refinements, requiring the first-order bound and error(h/4) <= 0.75 error(h).",
+    note="Trusted: Coq kernel; stdlib real axioms and Classical_Prop.classic (via Coquelicot); scipy.integrate as the reference; the weight matrices' tie to the Coq model is the C03 correspondence.",
+    technique="Coq proof (discrete Lipschitz bound; Coquelicot FTC for the ring mass) + numerical convergence oracle",
+    design="DESIGN.md §3 C04"),
 }
 NA_REASON = "check not built yet in this session (planned, see DESIGN.md §7)"
 
